@@ -15,6 +15,8 @@ import (
 	"sort"
 	"strings"
 	"time"
+
+	"github.com/sourcenetwork/defradb/client"
 )
 
 type qfield struct {
@@ -726,7 +728,38 @@ func engQuery(e *Env) {
 	}
 	e.count(fmt.Sprintf("constant_filters_%dpct", 100*constant/max(total, 1)))
 	malformedStream(e, ctx, x, r, nMal)
+	bigSumWitness(e, ctx, x)
 	writeQueryCases(e, qcases, acases)
+}
+
+// bigSumWitness: _sum over Int values whose total exceeds 2^53 (values of that size can only be written through the
+// document API, GraphQL Int literals are 32 bit).
+func bigSumWitness(e *Env, ctx context.Context, x *Nd) {
+	x.addSchema(ctx, `type BigSum { v: Int }`)
+	col := getCol(ctx, x, "BigSum")
+	vals := []int64{9007199254740992, 1, 1, 1}
+	exact := int64(0)
+	for _, v := range vals {
+		doc, err := client.NewDocFromJSON([]byte(fmt.Sprintf(`{"v": %d}`, v)), col.Definition())
+		if err == nil {
+			err = col.Create(ctx, doc)
+		}
+		if err != nil {
+			e.violate("harness-query", "BigSum create: "+err.Error(), nil)
+			return
+		}
+		exact += v
+	}
+	q := `query { _sum(BigSum: {field: v}) }`
+	d, errs := x.gql(ctx, q)
+	e.Res.Evaluations++
+	if errs != "" {
+		e.violate("aggregate-error", errs, map[string]any{"request": q})
+		return
+	}
+	if fmt.Sprint(d["_sum"]) != fmt.Sprint(exact) {
+		e.violate("aggregate-sum-precision", fmt.Sprintf("_sum of the Int values %v = %v, the integers add up to %d", vals, d["_sum"], exact), map[string]any{"request": q, "values": vals})
+	}
 }
 
 // writeQueryCases writes the case file with one Definition per collection.
